@@ -194,6 +194,89 @@ def chunk_signal(s, cuts):
     return chunks
 
 
+def online_chunks(sig, cuts):
+    """The batches of every variable for every update: (number of updates, {variable: [batch, ...]})."""
+    vs = sorted(sig)
+    if isinstance(cuts, dict):
+        # per-variable chunking; an entry "@v" places the chunks of v at the given (increasing) update indices,
+        # the other updates deliver an empty batch for v
+        nup = max([len(c) for k, c in cuts.items() if not k.startswith("@")] +
+                  [max(c) for k, c in cuts.items() if k.startswith("@") and not k.startswith("@@") and c]) + 1
+        chunks = {}
+        for v in vs:
+            ch = chunk_signal(sig[v], cuts[v])
+            pos = cuts.get("@" + v)
+            if pos and len(pos) == len(ch):
+                row = [[] for _ in range(nup)]
+                for k_, c_ in zip(pos, ch):
+                    row[k_] = c_
+                chunks[v] = row
+            else:
+                chunks[v] = ch + [[] for _ in range(nup - len(ch))]
+    else:
+        nup = len(cuts) + 1
+        chunks = {v: chunk_signal(sig[v], cuts) for v in vs}
+    return nup, chunks
+
+
+def alg_online_query(items):
+    """items: (formula, sig, cuts) -> what the mirror of the dense online operation classes (Rtamt/Dense/AlgOn.lean) returns
+    for every update: ("ok", [[(Fraction | inf, float)], ...]) | ("err", kind) | ("undef",)."""
+    lines = []
+    for f, sig, cuts in items:
+        nup, chunks = online_chunks(sig, cuts)
+        fields = []
+        for i in range(nup):
+            parts = ["%s:%s" % (v, ",".join("%d/%d@%d" % (t.numerator, t.denominator, f2b(x)) for (t, x) in chunks[v][i]))
+                     for v in sorted(sig) if chunks[v][i]]
+            fields.append(" & ".join(parts) if parts else "-")
+        lines.append("denseon | %d/%d | %s | %s" % (SCALE.numerator, SCALE.denominator, F.to_proto(f), " | ".join(fields)))
+    res = []
+    for o, ln in zip(common.driver_run(lines), lines):
+        if o.startswith("undef"):
+            res.append(("undef",))
+        elif o.startswith("err "):
+            res.append(("err", o[4:].strip()))
+        elif o.startswith("ok"):
+            outs = []
+            for part in o[2:].split(";"):
+                part = part.strip()
+                row = []
+                if part and part != "-":
+                    for it in part.split():
+                        t, v = it.split("@")
+                        row.append((float("inf") if t == "inf" else Fraction(t), common.b2f(v)))
+                outs.append(row)
+            res.append(("ok", outs))
+        else:
+            raise common.HarnessError("dense online mirror: " + o + " on: " + ln)
+    return res
+
+
+def flush_online_mirror(ctx):
+    """Compare the runs recorded in ctx.pending_mirror (formula, signals, cuts, text, outcome of the real monitor) with the
+    mirror of the online operation classes: every list every update() returned, sample by sample."""
+    pend = getattr(ctx, "pending_mirror", [])
+    ctx.pending_mirror = []
+    if not pend:
+        return
+    for (f, sig, cuts, text, out), m in zip(pend, alg_online_query([(f, sig, cuts) for f, sig, cuts, _, _ in pend])):
+        ctx.count("on-mirror:" + m[0])
+        if m[0] == "undef" or (m[0] == "err" and m[1] == "type"):
+            continue          # NaN samples / the float `last` of case 1 of the online intersection: outside the mirror
+        if out[0] == "ok" and m[0] == "ok":
+            same = len(out[1]) == len(m[1]) and all(same_samples(a, b) for a, b in zip(out[1], m[1]))
+        else:
+            same = out[0] != "ok" and m[0] == "err"
+        if not same:
+            rep = {"monitor": "onc", "spec": text, "formula": F.to_proto(f), "signals": sig_rep(sig),
+                   "cuts": ({k: [str(c) for c in cs] for k, cs in cuts.items()} if isinstance(cuts, dict) else [str(c) for c in cuts]),
+                   "impl": out, "mirror": [[[str(t), v] for t, v in row] for row in m[1]] if m[0] == "ok" else list(m)}
+            ctx.diffs.append(Violation("the mirror of the dense online operation classes (Dense/AlgOn.lean) returns %r, update() returned %r: %s"
+                                       % (m[1] if m[0] == "ok" else m, out[1] if out[0] == "ok" else out[1:], text), rep,
+                                       failing_input=False, stream="on-c/mirror"))
+
+
 def run_online(f, sig, cuts, pastify=False, text=None, reset_after=None, semantics=None, io=None, consts=()):
     """Feed the signals in len(cuts)+1 updates; returns the list of returned sample lists."""
     vs = sorted(sig)
@@ -204,25 +287,7 @@ def run_online(f, sig, cuts, pastify=False, text=None, reset_after=None, semanti
         spec.parse()
         if pastify:
             spec.pastify()
-        if isinstance(cuts, dict):
-            # per-variable chunking; an entry "@v" places the chunks of v at the given (increasing) update indices,
-            # the other updates deliver an empty batch for v
-            nup = max([len(c) for k, c in cuts.items() if not k.startswith("@")] +
-                      [max(c) for k, c in cuts.items() if k.startswith("@") and not k.startswith("@@") and c]) + 1
-            chunks = {}
-            for v in vs:
-                ch = chunk_signal(sig[v], cuts[v])
-                pos = cuts.get("@" + v)
-                if pos and len(pos) == len(ch):
-                    row = [[] for _ in range(nup)]
-                    for k_, c_ in zip(pos, ch):
-                        row[k_] = c_
-                    chunks[v] = row
-                else:
-                    chunks[v] = ch + [[] for _ in range(nup - len(ch))]
-        else:
-            nup = len(cuts) + 1
-            chunks = {v: chunk_signal(sig[v], cuts) for v in vs}
+        nup, chunks = online_chunks(sig, cuts)
         outs = []
         omit = isinstance(cuts, dict) and bool(cuts.get("@@omit"))
         for i in range(nup):
@@ -447,6 +512,13 @@ def window_signals(rng, vs):
 
 
 def law_stream(ctx):
+    try:
+        _law_stream(ctx)
+    finally:
+        flush_online_mirror(ctx)
+
+
+def _law_stream(ctx):
     from .props import c18
     rng = ctx.subrng("laws-c")
     for _ in range(ctx.budget(120, 900)):
@@ -470,6 +542,13 @@ def law_stream(ctx):
 
 
 def window_law_stream(ctx):
+    try:
+        _window_law_stream(ctx)
+    finally:
+        flush_online_mirror(ctx)
+
+
+def _window_law_stream(ctx):
     """The bounded dualities with wide windows directly over a variable (or a predicate), on signals with several samples inside a
     window: the once / historically (and eventually / always) implementations are twins of each other and must stay twins."""
     rng = ctx.subrng("laws-window")
@@ -500,8 +579,13 @@ def check_law(ctx, mon, name, lhs, rhs, sig):
         tl, l = eval_offline(lhs, sig)
         tr, r = eval_offline(rhs, sig)
     else:
-        tl, l = online_flat(lhs, sig)
-        tr, r = online_flat(rhs, sig)
+        tl, l0 = run_online(lhs, sig, [])
+        tr, r0 = run_online(rhs, sig, [])
+        if not hasattr(ctx, "pending_mirror"):
+            ctx.pending_mirror = []
+        ctx.pending_mirror += [(lhs, sig, [], tl, l0), (rhs, sig, [], tr, r0)]
+        l = ("ok", [p for chunk in l0[1] for p in chunk]) if l0[0] == "ok" else l0
+        r = ("ok", [p for chunk in r0[1] for p in chunk]) if r0[0] == "ok" else r0
     rep = {"law": name, "monitor": mon, "lhs": tl, "rhs": tr, "lhs_proto": F.to_proto(lhs), "rhs_proto": F.to_proto(rhs),
            "signals": sig_rep(sig), "impl_lhs": l, "impl_rhs": r}
     if l[0] != "ok" or r[0] != "ok":
